@@ -515,16 +515,40 @@ def run_check(pid, tier="quick", replay=None):
     def oracle_fail_idx(rs):
         return [i for i, r in enumerate(rs) if r["oracle"] is not None]
 
-    if (broken or corr) and not oracle_fail_idx(res) and not replay and tier != "thorough":
+    # source fingerprints: which watched files differ from the tree the checks were validated on
+    touched = []
+    try:
+        from harness import fingerprint
+        ch = fingerprint.changed(REPO)
+        if ch:
+            touched = fingerprint.relevant(pid, ch, getattr(check, "watch", ()))
+            log.append(f"source differs from fingerprints in {len(ch)} file(s); watched by {pid}: {touched[:6]}")
+    except Exception as e:  # never a verdict
+        log.append(f"fingerprint comparison unavailable: {e!r}")
+
+    # Widened search (time-boxed): a tie is broken but no concrete failure is in hand, or a
+    # watched source file changed and the quick cases found nothing.  More search is never a
+    # verdict by itself; it only looks for a concrete failing input.
+    if (broken or corr or touched) and not oracle_fail_idx(res) and not replay and tier != "thorough":
+        budget = float(os.environ.get("VERIF_WIDEN_BUDGET", "420"))
+        tw = time.time()
         extra = list(check.generate(random.Random(seed + 7919), "thorough"))
-        res2, corr2, nl2 = evaluate(check, mod, extra)
-        base = len(cases)
-        cases = cases + extra
-        res = res + res2
-        for k, v in corr2.items():
-            corr[base + k] = v
-        nlines += nl2
-        log.append(f"widened search: +{len(extra)} cases")
+        random.Random(seed + 104729).shuffle(extra)
+        step = max(64, min(2000, len(extra) // 12 or 1))
+        done = 0
+        while done < len(extra) and time.time() - tw < budget:
+            part = extra[done:done + step]
+            res2, corr2, nl2 = evaluate(check, mod, part)
+            base = len(cases)
+            cases = cases + part
+            res = res + res2
+            for k, v in corr2.items():
+                corr[base + k] = v
+            nlines += nl2
+            done += len(part)
+            if oracle_fail_idx(res2) or (corr2 and not (broken or touched)):
+                break
+        log.append(f"widened search: +{done} of {len(extra)} thorough-tier cases in {time.time() - tw:.0f}s")
 
     findings = load_findings(pid)
     seen_keys = set()
@@ -615,6 +639,7 @@ def run_check(pid, tier="quick", replay=None):
             "branch_histogram": dict(sorted(tags.items())),
             "input_mutations_observed": sorted(set(mutated))[:20],
             "broken_obligations": broken,
+            "source_files_changed_vs_fingerprints": touched[:50],
             "exhaustive": False,
         },
         "assumptions": list(check.assumptions),
